@@ -1,4 +1,5 @@
 SPECIFICATION Spec
 CONSTANTS
+  EnumLookup = "value-first"
   Variant = "fixed"
 INVARIANT P_ShapeRoundTrips
